@@ -1,10 +1,19 @@
 import NoteSeqVerif.Proofs.C06PNote
 import NoteSeqVerif.Proofs.C06PEvents
 import NoteSeqVerif.Proofs.C06PExtract
+import NoteSeqVerif.Proofs.C06PFull
 /-! C06 (performance half) — property theorems and non-vacuity examples.
 
 Models: `Model/C06P.lean` (renderers, canonical predicates), `Model/C07.lean` (extractors), `Model/C01.lean`
-(quantizers); float half: `Proofs/C06Float.lean` through the `Grid` interface of `Proofs/C06PFloat.lean`. -/
+(quantizers); float half: `Proofs/C06Float.lean` through the `Grid` interface of `Proofs/C06PFloat.lean`.
+
+* `roundtrip_Performance`, `roundtrip_MetricPerformance`, `roundtrip_NotePerformance`: render → quantize at the same
+  resolution → extract = identity (events, start step, resolution, bins, max shift) for every canonical event list,
+  no size bound other than steps `< 2^40`, every `Rounding` operator (`rne53` = IEEE binary64 included);
+* `extract_canonical_Perf`, `extract_canonical_NotePerf`: canonical = what extraction itself produces;
+* `roundtrip_*_normal`: strictly canonical lists are normal forms of the round trip;
+* examples: non-vacuity at awkward tempi, and why the extractor's output on overlapping notes of one pitch is NOT
+  round-trippable (FIFO re-matching reorders simultaneous NOTE_OFFs). -/
 namespace NSV.C06P
 open NSV NSV.C06 NSV.C01 NSV.C07
 
@@ -168,18 +177,6 @@ structure PerfDomain (p : PerfObj) (a : SeqArgs) (filt : Option Int) : Prop wher
 def SameNotes (p : PerfObj) (a : SeqArgs) (evs : List PEvent) : Prop :=
   ∃ D D', decodeEvents p.nb a.velocity evs = .ok D ∧ decodeEvents p.nb a.velocity p.events = .ok D' ∧ D'.Perm D
 
-/-- **the property at full strength** for `Performance` (several NOTE_ONs of one pitch on one step allowed):
-kept as a statement; proved below for `CanonicalPerf` (`roundtrip_Performance_partial`) -/
-def roundtrip_Performance : Prop :=
-  ∀ (R : ℚ → ℚ), Rounding R → ∀ (p : PerfObj) (a : SeqArgs) (filt : Option Int),
-    CanonicalPerfFull p.nb p.maxShift p.events → PerfDomain p a filt → RoundtripPerf R p a filt
-
-/-- **the property at full strength** for `MetricPerformance` -/
-def roundtrip_MetricPerformance : Prop :=
-  ∀ (R : ℚ → ℚ), Rounding R → ∀ (p : PerfObj) (a : SeqArgs) (qpm : ℚ) (msq : Int) (filt : Option Int),
-    CanonicalPerfFull p.nb p.maxShift p.events → PerfDomain p a filt → 0 < qpm → p.maxShift = p.stepsPer * msq →
-    RoundtripMetric R p a qpm msq filt
-
 /-- **roundtrip_Performance_normal** (canonical lists are normal forms): if `p` renders to the same notes as a
 canonical event list `evs`, the round trip of `p` returns `evs`.  For `evs = p.events` this is the property. -/
 theorem roundtrip_Performance_normal {R : ℚ → ℚ} (hR : Rounding R) (p : PerfObj) (a : SeqArgs)
@@ -193,7 +190,7 @@ theorem roundtrip_Performance_normal {R : ℚ → ℚ} (hR : Rounding R) (p : Pe
     resolveDrum p.isDrum⟩
   have g := grid_abs hR p.stepsPer p.startStep (shiftSum evs + 1) hsps hS (by omega)
   obtain ⟨D, hD, hin, hext⟩ := perfEvents_roundtrip (R := R) (c := c) p.nb p.maxShift a.velocity evs hcanon
-    hnb0 g hS filt hfilt
+    hnb0 g filt hfilt
   obtain ⟨D0, D', hD0, hD', hperm⟩ := hsame
   rw [hD] at hD0
   simp only [Except.ok.injEq] at hD0
@@ -250,7 +247,7 @@ theorem roundtrip_MetricPerformance_normal {R : ℚ → ℚ} (hR : Rounding R) (
     resolveDrum p.isDrum⟩
   have g := grid_metric hR qpm p.stepsPer p.startStep (shiftSum evs + 1) hqpm hspq hS (by omega)
   obtain ⟨D, hD, hin, hext⟩ := perfEvents_roundtrip (R := R) (c := c) p.nb p.maxShift a.velocity evs hcanon
-    hnb0 g hS filt hfilt
+    hnb0 g filt hfilt
   obtain ⟨D0, D', hD0, hD', hperm⟩ := hsame
   rw [hD] at hD0
   simp only [Except.ok.injEq] at hD0
@@ -292,6 +289,96 @@ theorem roundtrip_MetricPerformance_partial {R : ℚ → ℚ} (hR : Rounding R) 
     (hqpm : 0 < qpm) (hms : p.maxShift = p.stepsPer * msq) : RoundtripMetric R p a qpm msq filt :=
   roundtrip_MetricPerformance_normal hR p a qpm msq filt p.events hcanon hd hqpm hms (sameNotes_self p a hcanon)
 
+/-- **roundtrip_Performance** — the property at full strength for `Performance`: for every canonical event list
+(`CanonicalPerfFull`: as `CanonicalPerf`, and several NOTE_ONs of one pitch may share a step), every bin count
+`0..127`, `max_shift_steps ≥ 1`, `steps_per_second ≥ 1`, start step `≥ 0` (steps below `2^40`), every `Rounding`
+operator: `to_sequence` → `quantize_note_sequence_absolute` → `Performance(quantized_sequence=…)` is the identity on
+events, start step, resolution, bin count and maximal shift. -/
+theorem roundtrip_Performance {R : ℚ → ℚ} (hR : Rounding R) (p : PerfObj) (a : SeqArgs) (filt : Option Int)
+    (hcanon : CanonicalPerfFull p.nb p.maxShift p.events) (hd : PerfDomain p a filt) : RoundtripPerf R p a filt := by
+  obtain ⟨hnb0, hnb1, hsps, hS, hmd, hfilt, hbound⟩ := hd
+  let σ := secPerStepAbsR R p.stepsPer
+  let c : RenderCfg := ⟨σ, seqStartR R σ p.startStep, none, a.instrument, resolveProgram a.program p.program,
+    resolveDrum p.isDrum⟩
+  have g := grid_abs hR p.stepsPer p.startStep (shiftSum p.events + 1) hsps hS (by omega)
+  obtain ⟨D, hD, hin, hext⟩ := perfEvents_roundtrip_full (R := R) (c := c) p.nb p.maxShift a.velocity p.events
+    hcanon hnb0 g filt hfilt
+  have hne : ¬ p.stepsPer = 0 := by omega
+  have hrender : perfToSequenceR R p a =
+      .ok { notes := D.map (mkNote R c), totalTime := totalTimeOf (D.map (mkNote R c)), tpq := Gen.STANDARD_PPQ } := by
+    simp only [perfToSequenceR, hne, ↓reduceIte, toSequenceCore, hD, hmd]
+    rfl
+  obtain ⟨q, hq, hqn, hqsps, _⟩ := quantizeAbs_grid (R := R) (c := c) C01.Gen.QUANTIZE_CUTOFF p.stepsPer
+    { notes := D.map (mkNote R c), totalTime := totalTimeOf (D.map (mkNote R c)), tpq := Gen.STANDARD_PPQ }
+    D rfl rfl rfl g hS rfl hin
+  have hev := hext q hqn
+  refine ⟨⟨p.events, p.startStep, p.nb, p.maxShift, (programAndIsDrum q filt).1, (programAndIsDrum q filt).2, q.sps⟩,
+    ?_, rfl, rfl, hqsps, rfl, rfl⟩
+  unfold rtPerfR
+  rw [hrender]
+  simp only [liftR, Except.bind, hq, liftQ]
+  unfold perfFromQuantized
+  have hnbv : ¬ p.nb > C07.Gen.MAX_NUM_VELOCITY_BINS := by simp only [C07.Gen.MAX_NUM_VELOCITY_BINS]; omega
+  have hqpos : 0 < q.sps := by rw [hqsps]; exact hsps
+  simp only [hqpos, not_true_eq_false, ↓reduceIte, hev, hnbv, liftX]
+
+/-- **roundtrip_MetricPerformance** — the property at full strength for `MetricPerformance`, at every tempo
+`qpm > 0` and every `steps_per_quarter ≥ 1` -/
+theorem roundtrip_MetricPerformance {R : ℚ → ℚ} (hR : Rounding R) (p : PerfObj) (a : SeqArgs) (qpm : ℚ)
+    (msq : Int) (filt : Option Int) (hcanon : CanonicalPerfFull p.nb p.maxShift p.events) (hd : PerfDomain p a filt)
+    (hqpm : 0 < qpm) (hms : p.maxShift = p.stepsPer * msq) : RoundtripMetric R p a qpm msq filt := by
+  obtain ⟨hnb0, hnb1, hspq, hS, hmd, hfilt, hbound⟩ := hd
+  let σ := secPerStepMetricR R qpm p.stepsPer
+  let c : RenderCfg := ⟨σ, seqStartR R σ p.startStep, none, a.instrument, resolveProgram a.program p.program,
+    resolveDrum p.isDrum⟩
+  have g := grid_metric hR qpm p.stepsPer p.startStep (shiftSum p.events + 1) hqpm hspq hS (by omega)
+  obtain ⟨D, hD, hin, hext⟩ := perfEvents_roundtrip_full (R := R) (c := c) p.nb p.maxShift a.velocity p.events
+    hcanon hnb0 g filt hfilt
+  have hpos : (0 : ℚ) < (p.stepsPer : ℚ) * qpm := by
+    have : (0 : ℚ) < p.stepsPer := by exact_mod_cast hspq
+    positivity
+  have hne : ¬ R ((p.stepsPer : ℚ) * qpm) = 0 := by
+    have hb := (hR.bounds hpos.le).1
+    have hw : (0 : ℚ) < 1 - 1 / 2 ^ 53 := by norm_num
+    have := mul_pos hpos hw
+    intro h0; rw [h0] at hb; linarith
+  have hrender : metricToSequenceR R p a qpm =
+      .ok { notes := D.map (mkNote R c), totalTime := totalTimeOf (D.map (mkNote R c)), tpq := Gen.STANDARD_PPQ,
+            tempos := [⟨0, qpm⟩] } := by
+    simp only [metricToSequenceR, hne, ↓reduceIte, toSequenceCore, hD, hmd]
+    rfl
+  obtain ⟨q, hq, hqn, hqspq, _⟩ := quantizeRel_grid (R := R) (c := c) C01.Gen.QUANTIZE_CUTOFF C01.Gen.DEFAULT_QPM
+    qpm p.stepsPer
+    { notes := D.map (mkNote R c), totalTime := totalTimeOf (D.map (mkNote R c)), tpq := Gen.STANDARD_PPQ,
+      tempos := [⟨0, qpm⟩] }
+    D rfl rfl rfl rfl rfl g hS rfl hin
+  have hev := hext q hqn
+  rw [hms] at hev
+  refine ⟨⟨p.events, p.startStep, p.nb, q.spq * msq, (programAndIsDrum q filt).1, (programAndIsDrum q filt).2, q.spq⟩,
+    ?_, rfl, rfl, hqspq, rfl, by rw [hqspq, hms]⟩
+  unfold rtMetricR
+  rw [hrender]
+  simp only [liftR, Except.bind, hq, liftQ]
+  unfold metricPerfFromQuantized
+  have hnbv : ¬ p.nb > C07.Gen.MAX_NUM_VELOCITY_BINS := by simp only [C07.Gen.MAX_NUM_VELOCITY_BINS]; omega
+  simp only [hqspq, hspq, not_true_eq_false, ↓reduceIte, hev, hnbv, liftX]
+
+/-- the strict predicate implies the full one (so the `_partial` / `_normal` theorems speak about a subset of the
+lists `roundtrip_Performance` covers) -/
+theorem canonicalFull_of_canonical (nb ms : Int) (evs : List PEvent) (h : CanonicalPerf nb ms evs) :
+    CanonicalPerfFull nb ms evs := by
+  unfold CanonicalPerf CanonicalPerfFull CanonicalPerfB streamOk at *
+  simp only [Bool.and_eq_true, decide_eq_true_eq, List.all_eq_true, Bool.or_eq_true, beq_iff_eq,
+    List.isEmpty_iff, Bool.not_eq_true', ↓reduceIte, Bool.false_eq_true] at h ⊢
+  obtain ⟨h1, ⟨⟨⟨⟨h2, h3⟩, h4⟩, h5⟩, h6⟩⟩ := h
+  refine ⟨h1, ⟨⟨⟨⟨h2, h3⟩, ?_⟩, h5⟩, h6⟩⟩
+  refine h4.imp ?_
+  intro a b hab
+  simp only [onLt, onLe, Bool.or_eq_true, Bool.and_eq_true, beq_iff_eq] at hab ⊢
+  rcases hab with h | ⟨h, p⟩
+  · exact Or.inl h
+  · exact Or.inr ⟨h, decide_eq_true (Int.le_of_lt (of_decide_eq_true p))⟩
+
 /-- **extract_canonical_Perf**: whatever `BasePerformance._from_quantized_sequence` returns (`Performance` and
 `MetricPerformance` share it) is canonical, for every quantized sequence in `ExtractDomain`: selected notes with MIDI
 pitches (and velocities, when bins are used) and positive length, start times that agree with the start steps, and no
@@ -323,14 +410,14 @@ example : RoundtripMetric rne53 ⟨exEvents, 12, 8, 3, 3, none, none⟩ ⟨100, 
 /-- **why same-pitch overlaps need the FIFO clause of `CanonicalPerf`.**  Three notes: pitch 60 over steps 0–8,
 pitch 62 over 1–8, pitch 60 over 2–4.  The extractor emits the two final NOTE_OFFs in the order of its notes
 `(0, 60) < (1, 62)`: `OFF 60, OFF 62`.  `_to_sequence` matches NOTE_OFFs to NOTE_ONs first-in-first-out per pitch,
-so it renders pitch 60 as 0–4 and 2–8: now the note ending at step 8 started at step 2, after the pitch-62 note, and
+so it renders pitch 60 as 0–4 and 2–8 (at 1 step per second): now the note ending at step 8 started at step 2, after the pitch-62 note, and
 re-extraction emits `OFF 62, OFF 60`.  The extractor's output on this sequence is therefore not canonical (the
 NOTE_OFFs of one step are not in the order of their FIFO-matched notes) and does not survive the round trip. -/
 def exOverlap : NoteSeq :=
-  { notes := [{ (default : Note) with pitch := 60, velocity := 100, qs := 0, qe := 8, start := 0, end_ := 8 / 10 },
-              { (default : Note) with pitch := 62, velocity := 100, qs := 1, qe := 8, start := 1 / 10, end_ := 8 / 10 },
-              { (default : Note) with pitch := 60, velocity := 100, qs := 2, qe := 4, start := 2 / 10, end_ := 4 / 10 }],
-    sps := 10 }
+  { notes := [{ (default : Note) with pitch := 60, velocity := 100, qs := 0, qe := 8, start := 0, end_ := 8 },
+              { (default : Note) with pitch := 62, velocity := 100, qs := 1, qe := 8, start := 1, end_ := 8 },
+              { (default : Note) with pitch := 60, velocity := 100, qs := 2, qe := 4, start := 2, end_ := 4 }],
+    sps := 1 }
 
 def exOverlapEvents : List PEvent :=
   [.noteOn 60, .timeShift 1, .noteOn 62, .timeShift 1, .noteOn 60, .timeShift 2, .noteOff 60, .timeShift 4,
@@ -340,7 +427,27 @@ def exOverlapFifo : List PEvent :=
   [.noteOn 60, .timeShift 1, .noteOn 62, .timeShift 1, .noteOn 60, .timeShift 2, .noteOff 60, .timeShift 4,
    .noteOff 62, .noteOff 60]
 
-/-- the extractor's output on the overlapping sequence is not canonical … -/
+instance : DecidableRel NevLt := fun a b => by unfold NevLt; infer_instance
+
+/-- this is what the extractor returns on the overlapping sequence … -/
+example : perfEvents exOverlap 0 0 100 none = .ok exOverlapEvents := by
+  have h1 : sortedNotes exOverlap 0 none = exOverlap.notes := by
+    unfold sortedNotes
+    have : selectNotes exOverlap 0 none = exOverlap.notes := by decide +kernel
+    rw [this]
+    apply List.mergeSort_of_pairwise
+    decide +kernel
+  unfold perfEvents
+  rw [h1]
+  have h2 : noteEvents exOverlap.notes =
+      [⟨0, 0, false, exOverlap.notes[0]⟩, ⟨1, 1, false, exOverlap.notes[1]⟩, ⟨2, 2, false, exOverlap.notes[2]⟩,
+       ⟨4, 2, true, exOverlap.notes[2]⟩, ⟨8, 0, true, exOverlap.notes[0]⟩, ⟨8, 1, true, exOverlap.notes[1]⟩] :=
+    List.Perm.eq_of_pairwise (fun a b _ _ h1 h2 => absurd h2 h1.asymm)
+      (noteEvents_facts exOverlap.notes (by decide +kernel)).1 (by decide +kernel)
+      ((List.mergeSort_perm _ _).trans (by decide +kernel))
+  rw [h2]
+  decide +kernel
+/-- … it is not canonical … -/
 example : ¬ CanonicalPerfFull 0 100 exOverlapEvents := by decide
 /-- … `_to_sequence` re-matches it first-in-first-out (the note ending at step 8 now starts at step 2) … -/
 example : decodeEvents 0 100 exOverlapEvents = .ok [⟨60, 0, 4, 100⟩, ⟨60, 2, 8, 100⟩, ⟨62, 1, 8, 100⟩] := by decide
@@ -355,10 +462,16 @@ example : RoundtripPerfTo rne53 ⟨exOverlapEvents, 0, 0, 100, 10, none, none⟩
 /-- … while the same music with the overlap resolved the FIFO way is canonical (and round-trips) -/
 example : CanonicalPerf 0 100 exOverlapFifo := by decide
 
-/-- two NOTE_ONs of one pitch on one step: canonical at full strength, outside the proved part -/
+/-- two NOTE_ONs of one pitch on one step (with different bins): canonical at full strength only; covered by
+`roundtrip_Performance`, not by the normal-form theorem (the stable sort makes the result depend on storage order) -/
 example : CanonicalPerfFull 4 100 [.velocity 1, .noteOn 60, .velocity 2, .noteOn 60, .timeShift 2, .noteOff 60,
     .timeShift 1, .noteOff 60] ∧
     ¬ CanonicalPerf 4 100 [.velocity 1, .noteOn 60, .velocity 2, .noteOn 60, .timeShift 2, .noteOff 60,
     .timeShift 1, .noteOff 60] := by decide
+
+example : RoundtripPerf rne53 ⟨[.velocity 1, .noteOn 60, .velocity 2, .noteOn 60, .timeShift 2, .noteOff 60,
+    .timeShift 1, .noteOff 60], 0, 4, 100, 100, none, none⟩ ⟨100, 0, none, none⟩ none :=
+  roundtrip_Performance rounding_rne53 _ _ _ (by decide)
+    ⟨by decide, by decide, by decide, by decide, rfl, Or.inl rfl, by decide⟩
 
 end NSV.C06P
